@@ -830,7 +830,8 @@ class StoryMove(MosFile):
         story is to be moved
         """
         stories = self.base_tag.findall('storyID')
-        if len(stories) < 2:
+        if len(stories) < 2 or stories[1].text is None:
+            # an absent or blank second storyID means "move to the bottom"
             return
         return Story(self.base_tag, id=stories[1].text, unknown_items=True)
 
@@ -856,6 +857,9 @@ class StoryMove(MosFile):
                 f"{self.__class__.__name__} error in {self.message_id} - source story not found"
             )
         remove_node(parent=ro.base_tag, node=source_story)
+        if source_index < target_story_index:
+            # removing the source shifted the target up by one
+            target_story_index -= 1
         insert_node(parent=ro.base_tag, node=source_story, index=target_story_index)
         return ro
 
